@@ -26,7 +26,9 @@ def answers():
         '200-16384': ([fit], True),
         '403': ([b'HTTP/1.1 403 Forbidden\r\nContent-Length: 0\r\n\r\n'], False),
         '407': ([b'HTTP/1.1 407 Proxy Authentication Required\r\nProxy-Authenticate: Basic\r\n\r\nbody'], False),
-        '500': ([b'HTTP/1.1 500 Oops\r\n\r\n'], False), '201': ([b'HTTP/1.1 201 Created\r\n\r\n'], False),
+        '500': ([b'HTTP/1.1 500 Oops\r\n\r\n'], False), '2000': ([b'HTTP/1.1 2000 x\r\n\r\n'], False),
+        '200abc': ([b'HTTP/1.1 200abc x\r\n\r\n'], False), '200.5': ([b'HTTP/1.1 200.5 x\r\n\r\n'], False),
+        '200403': ([b'HTTP/1.1 200403 Forbidden\r\n\r\n'], False), '020': ([b'HTTP/1.1 020 x\r\n\r\n'], False), '201': ([b'HTTP/1.1 201 Created\r\n\r\n'], False),
         '101': ([b'HTTP/1.1 101 Switching Protocols\r\nUpgrade: websocket\r\n\r\n'], False),
         'garbage': ([b'\x16\x03\x01\x00\x02garbage\r\n\r\n'], False), 'no-status': ([b'\r\n\r\n'], False),
         'unterminated-eof': ([b'HTTP/1.1 200 OK\r\nX: ', W.Eof()], False), 'eof': ([W.Eof()], False), 'err': ([W.Err()], False),
@@ -76,7 +78,7 @@ class C19(F.Check):
         'Proxy-Authorization header syntax is outside the property (only the CONNECT target is judged)',
     ]
     expect_sites = ('tunnel-up', 'refused', 'direct', 'wss-through-proxy', 'https-proxy', 'credentials', 'env-proxy', 'fault', 'eof-offsets',
-                    'two-attempts', 'single-cuts')
+                    'two-attempts', 'single-cuts', 'intruder')
 
     def rule(self, tier):
         return ('%d proxy answers x %d proxy URL shapes x %d targets; mappings {absent, {}, http only, https only, both, from environment}; EOF/reset at every '
@@ -89,7 +91,7 @@ class C19(F.Check):
 
     def jobs(self, tier, seed):
         jobs = [{'k': 'answers', 'proxy': pi} for pi in range(len(PROXIES))]
-        jobs += [{'k': 'mapping'}, {'k': 'offsets'}, {'k': 'faults'}, {'k': 'pairs', 'n': 9 if tier == 'thorough' else 6}]
+        jobs += [{'k': 'mapping'}, {'k': 'offsets'}, {'k': 'faults'}, {'k': 'pairs', 'n': 9 if tier == 'thorough' else 6}, {'k': 'intruder'}]
         return jobs
 
     # ------------------------------------------------------------------ one connection through (or not through) a proxy
@@ -274,6 +276,41 @@ class C19(F.Check):
                                     problems.append(('handshake-leaked', 'bytes after the CONNECT although the proxy phase failed: %r' % wire[k + 4:][:40]))
                             self.account(res, {'k': 'fault', 'target': ti, 'proxy': pi, 'op': i, 'kind': kind}, run2, ev2, problems, 'fault:' + nops[i][3])
             res.samples.append({'fault_ops': [o[3] for o in nops[:8]]})
+        elif job['k'] == 'intruder':
+            # another thread uses the WebSocket while the session is blocked waiting for the proxy's answer
+            res.covered.add('intruder')
+            actions = {'send_text': lambda ws: ws.send_text('early'), 'send_ping': lambda ws: ws.send_ping(b'e'),
+                       'send_binary': lambda ws: ws.send_binary(b'e'), 'close': lambda ws: ws.close()}
+            for ti, pi in ((0, 0), (2, 3), (2, 2)):
+                for aname, act in sorted(actions.items()):
+                    for ans_name in ('200', '200-bytes', '403', 'partial-then-timeout'):
+                        steps, up = ans[ans_name]
+                        proxy, target = PROXIES[pi], TARGETS[ti]
+                        world = W.World(Tunnel([steps]), max_waits=200)
+                        log = []
+
+                        def on_block(conn, _act=act, _log=log):
+                            before = len(conn.written)
+                            try:
+                                _act(world._ws)
+                                _log.append(('ok', len(conn.written) - before))
+                            except BaseException as error:  # noqa
+                                _log.append((error, len(conn.written) - before))
+                        world.on_block = on_block
+                        with world:
+                            ws = W.L_websocket.WebSocket(target[0], proxies={'https' if target[3] else 'http': proxy[0]})
+                            world._ws = ws
+                            run, events, conns = self.attempt(world, ws)
+                        problems = []
+                        for outcome, wrote in log:
+                            if wrote:
+                                problems.append(('write-before-tunnel', '%s from another thread during the proxy wait wrote %d bytes to the proxy socket' % (aname, wrote)))
+                            if outcome != 'ok' and not isinstance(outcome, W.lomond.errors.WebSocketError):
+                                problems.append(('intruder-exception', '%s raised %r' % (aname, outcome)))
+                        if run.escaped is not None:
+                            problems.append(('exception-escaped', repr(run.escaped)))
+                        self.account(res, {'k': 'intruder', 'target': ti, 'proxy': pi, 'action': aname, 'answer': ans_name}, run, events, problems, 'intruder')
+            res.samples.append({'intruder_actions': sorted(actions)})
         else:
             res.covered.add('two-attempts')
             menu = ['200', '403', '407', 'unterminated-eof', 'partial-then-timeout', 'partial-then-reset', 'eof', '16385-cross', '500'][:job['n']]
@@ -310,7 +347,7 @@ class C19(F.Check):
     def replay(self, case, verbose=True):
         res = F.JobResult()
         job = {'answers': {'k': 'answers', 'proxy': case.get('proxy', 0)}, 'cut': {'k': 'answers', 'proxy': case.get('proxy', 0)},
-               'mapping': {'k': 'mapping'}, 'offset': {'k': 'offsets'}, 'fault': {'k': 'faults'}, 'pair': {'k': 'pairs', 'n': 9}}[case['k']]
+               'mapping': {'k': 'mapping'}, 'offset': {'k': 'offsets'}, 'fault': {'k': 'faults'}, 'pair': {'k': 'pairs', 'n': 9}, 'intruder': {'k': 'intruder'}}[case['k']]
         r = self.run_job(job)
         out = [v for v in r.violations if v.case == case]
         if verbose:
